@@ -19,7 +19,7 @@ func runC07(c *Ctx) {
 
 	c.rule("C07.1", func() { c07Ranges(c) })
 	c.rule("C07.2", func() { c07Thresholds(c) })
-	c.rule("C07.3", func() { c07Duplicates(c) })
+	c.rule("C07.3", func() { c07Duplicates(c, "C07.3") })
 	c.rule("C07.4", func() { c07Timing(c) })
 }
 
@@ -227,8 +227,7 @@ func c07Thresholds(c *Ctx) {
 	}
 }
 
-func c07Duplicates(c *Ctx) {
-	const R = "C07.3"
+func c07Duplicates(c *Ctx, R string) {
 	dup := c.obj(ah, "ReceivedPacketHandler", "IsPotentiallyDuplicate")
 	notDup := EdgeRel(BoolTrue(CallTo(dup, -1)), true)
 	for _, pr := range [][2]string{{"handleShortHeaderPacket", "handleUnpackedShortHeaderPacket"}, {"handleLongHeaderPacket", "handleUnpackedLongHeaderPacket"}} {
